@@ -15,6 +15,7 @@ only = sys.argv[2] if len(sys.argv) > 2 else ""
 def nf_tree(fn, ctx):
     g = copy.deepcopy(fn)
     equiv._Strip().visit(g)
+    equiv.separate_scopes(g)
     equiv.Inliner(ctx, g).run()
     norm = equiv.Normaliser(bound_names=equiv._param_names(g), list_locals=equiv._list_locals(g))
     prev = None
@@ -42,6 +43,10 @@ def nf_tree(fn, ctx):
 for rel, hunks in files.items():
     src = apply_hunks(base.read_text(rel), hunks)
     tree = ast.parse(src)
+    ren = equiv.detect_renames(rel, src, tree)
+    if ren:
+        print(rel, "renames:", ren)
+        equiv._rename_everywhere(tree, ren)
     ref = equiv.reference_module(rel)
     if ref is None:
         print(rel, "no reference")
